@@ -21,6 +21,9 @@ UNITS = {
     'conv_int': {'sources': ('core', 'fpdec'), 'modes': ('F', 'D')},
     'conv_int_total': {'sources': ('core', 'fpdec'), 'modes': ('F', 'D'), 'module': 'conv_int', 'builder': 'build_total'},
     'into_float': {'sources': ('core', 'fpdec'), 'modes': ('F', 'D')},
+    'parser': {'sources': ('core', 'fpdec'), 'modes': ('F', 'D')},
+    'rem': {'sources': ('core', 'fpdec'), 'modes': ('F', 'D')},
+    'checked_rem': {'sources': ('core', 'fpdec'), 'modes': ('F', 'D'), 'module': 'rem', 'builder': 'build_checked'},
     'cmp': {'sources': ('core', 'fpdec'), 'modes': ('F', 'D')},
     'checked_add_sub': {'sources': ('core', 'fpdec'), 'modes': ('F', 'D'), 'module': 'add_sub', 'builder': 'build_checked'},
 }
@@ -33,6 +36,37 @@ PROPS = {
         'title': 'Addition and subtraction are exact or signal overflow',
         'design_ref': 'DESIGN.md section 7 (C01)',
         'assumptions': ['R8: i128::from(uN) widening conversions (assume_specification)'],
+    },
+    'C06': {
+        'units': ['core_kernel', 'parser'],
+        'kani': ['kani/swar.py'],
+        'title': 'Parsing accepts exactly the literal grammar and never yields a wrong value',
+        'design_ref': 'DESIGN.md section 7 (C06)',
+        'assumptions': [
+            'the two raw-memory primitives skip_n (get_unchecked) and read_u64_unchecked (ptr::read_unaligned) are external_body stubs with requires n <= len / len >= 8 and slice / little-endian-word ensures; every call site is verified against those requires (that IS the never-reads-outside-the-string claim), their 1-3 line unsafe bodies are trusted',
+            '<str as AsRef<[u8]>>::as_ref returns the UTF-8 bytes of the string (uninterpreted utf8(), assume_specification)',
+            'chunk_contains_8_digits / chunk_to_u64 enter the Verus unit as stubs with exactly the contract proved by Kani on the full u64 domain (kani/swar.py, loop-free harnesses: complete, not bounded)',
+        ],
+    },
+    'C07': {
+        'units': ['core_kernel', 'format', 'format_roundtrip', 'parser'],
+        'title': 'Display/ToString is canonical and round-trips through the parser',
+        'design_ref': 'DESIGN.md section 7 (C07)',
+        'assumptions': [
+            'R7: core::fmt is outside Verus: format!/write!/to_string are stubs whose postcondition is generated from the format-string literal; Formatter is a stand-in with a ghost log',
+            'round trip: spec-level lemma parse_decimal_spec(ascii(canonical(c,f))) == Some((c,f)) (spec/strings.rs, spec/parse.rs) composed with the proved contracts of String::from / Display (unit format) and from_str (unit parser); no exec function composes the two calls',
+            'serde-as-str: the derive output is inspected mechanically on the feature expansion (delegates to String::from(Decimal) / TryFrom<String>); serde itself is a trusted dependency',
+        ],
+    },
+    'C10': {
+        'units': ['core_kernel', 'cmp', 'rem', 'checked_rem'],
+        'title': 'Remainder satisfies the truncated-division identity exactly',
+        'design_ref': 'DESIGN.md section 7 (C10)',
+        'assumptions': [
+            'R8: i128::from(uN) widening conversions (assume_specification)',
+            'eq_zero/eq_one enter with the contracts proved in unit cmp',
+            'the overflow signal (panic / None) is accepted whenever p < q and cx*10^(q-p) is outside i128, as the statement permits, even though the exact remainder is representable there (e.g. new_raw(MAX/3,1) % new_raw(MAX/5,3))',
+        ],
     },
     'C08': {
         'units': ['core_kernel', 'cmp'],
